@@ -1,10 +1,12 @@
 /-
-  SrcTieImplC01 — source ties (see SrcTieImpl.lean) for setIdentity, matrix, composition, inverse.
+  SrcTieImplC01 — source ties (see SrcTieImpl.lean) for setIdentity, matrix, composition, inverse
+  of SO2, C1, Tn, SE2, SO3, SE3, Galilei, SE_K(3).
 -/
 import SmoothProps.SrcTieImpl
 
 open Scalar Lin EigenSem
 
+set_option linter.unusedSectionVars false
 namespace SrcTieImpl
 variable {α : Type} [Scalar α]
 
@@ -43,5 +45,70 @@ theorem se3_composition (a b : Vec α 7) : ImplSrc.SE3.composition a b = SE3.com
 theorem se3_inverse (g : Vec α 7) : ImplSrc.SE3.inverse g = SE3.inverse g := by
   simp only [ImplSrc.SE3.inverse, SE3.inverse, memoM_eq, memoV_eq, so3_inverse]
   tie_vec
+
+/-! Galilei -/
+theorem galilei_setIdentity : (ImplSrc.Galilei.setIdentity : Vec α 11) = Galilei.identity := by tie_vec
+theorem galilei_matrix (g : Vec α 11) : ImplSrc.Galilei.matrix g = Galilei.matrix g := by tie_mat
+theorem galilei_composition (a b : Vec α 11) : ImplSrc.Galilei.composition a b = Galilei.composition a b := by
+  simp only [Galilei.composition, memoM_eq]; tie_vec
+theorem galilei_inverse (g : Vec α 11) : ImplSrc.Galilei.inverse g = Galilei.inverse g := by
+  simp only [ImplSrc.Galilei.inverse, Galilei.inverse, memoM_eq, memoV_eq, so3_inverse]
+  tie_vec
+
+/-! SE_K(3), every `k` -/
+theorem sek3_setIdentity {k : Nat} : (ImplSrc.SEK3.setIdentity : Vec α (4 + 3 * k)) = SEK3.identity k := by
+  simp only [ImplSrc.SEK3.setIdentity, SEK3.identity]
+  apply Vec.ext'; intro idx
+  by_cases h : idx.val < 3 * k
+  · rw [mkG_lo _ _ _ h]
+    simp only [setCoeffV, vzero, Vec.of]
+    rw [if_neg (by omega)]
+  · rw [mkG_hi _ _ _ h]
+    have h4 := idx.isLt
+    simp only [setCoeffV, vzero, Vec.of]
+    by_cases h3 : idx.val = 3 + 3 * k
+    · rw [if_pos h3]
+      have e : (⟨idx.val - 3 * k, by omega⟩ : Fin 4) = 3 := Fin.ext (by simp only []; omega)
+      rw [e]; rfl
+    · rw [if_neg h3]
+      have e : ∀ (r : Fin 4), r.val < 3 → (SO3.identity : Vec α 4) r = nat 0 := by
+        intro r hr; fin_cases r <;> first | rfl | (exfalso; simp at hr)
+      exact (e _ (by simp only []; omega)).symm
+theorem sek3_matrix {k : Nat} (g : Vec α (4 + 3 * k)) : ImplSrc.SEK3.matrix g = SEK3.matrix k g := by
+  simp only [ImplSrc.SEK3.matrix, SEK3.matrix, so3_matrix, seg_gq]
+  apply Mat.ext'; intro r c
+  rw [forLoop_setBlockCol_get]
+  simp only [setBlock, ident, Mat.of, segment, Vec.of, Fin.ext_iff]
+  have hr := r.isLt; have hc := c.isLt
+  split_ifs <;> first | rfl | (exfalso; omega)
+theorem sek3_composition {k : Nat} (a b : Vec α (4 + 3 * k)) :
+    ImplSrc.SEK3.composition a b = SEK3.composition k a b := by
+  simp only [ImplSrc.SEK3.composition, SEK3.composition, memoM_eq, so3_composition, so3_matrix, seg_gq]
+  rw [forLoop_mkG _ _ (SO3.composition (SEK3.gq k a) (SEK3.gq k b)) (fun r => setSegment_hi _ _ _ r _)]
+  rfl
+theorem sek3_inverse {k : Nat} (g : Vec α (4 + 3 * k)) : ImplSrc.SEK3.inverse g = SEK3.inverse k g := by
+  simp only [ImplSrc.SEK3.inverse, SEK3.inverse, memoM_eq, memoV_eq, so3_inverse, so3_matrix, seg_gq]
+  apply Vec.ext'; intro idx
+  by_cases h : idx.val < 3 * k
+  · rw [mkG_lo _ _ _ h]
+    simp only [setSegment, Vec.of]
+    rw [dif_neg (by omega)]
+    exact (forLoop_setSegment_get _ _ idx).trans (dif_pos h)
+  · rw [mkG_hi _ _ _ h]
+    simp only [setSegment, Vec.of]
+    rw [dif_pos (by omega)]
+
+/-! ### generic layer: `setIdentity()`, `Identity()`, `matrix()`, `operator*`, `operator*=`, `inverse()` of LieGroupBase.
+`operator*=` and `setIdentity` write in place: their TEXT is pinned by the translator (an in-place composition would
+alias its operands); the value they leave in the object is tied here (see SrcTieImpl.lean) -/
+section base
+variable (G : LieModel α)
+theorem base_setIdentity (g : Vec α G.rep) : BaseSrc.setIdentity G g = G.identity := rfl
+theorem base_Identity : BaseSrc.Identity G = G.identity := rfl
+theorem base_matrix (g : Vec α G.rep) : BaseSrc.matrix G g = G.matrix g := rfl
+theorem base_mul (a b : Vec α G.rep) : BaseSrc.mul G a b = G.composition a b := rfl
+theorem base_imul (a b : Vec α G.rep) : BaseSrc.imul G a b = G.composition a b := rfl
+theorem base_inverse (g : Vec α G.rep) : BaseSrc.inverse G g = G.inverse g := rfl
+end base
 
 end SrcTieImpl
